@@ -1159,6 +1159,16 @@ class TermBuilder:
                 and not self.fn.local_ty(l).startswith("&"):
             # m.insert(k, v) on a map that is only built up: the map afterwards holds the pair as well
             return ("push", self.local(l, b, i), ("tuple", (self.operand(t.args[1], cb, len(cblk.stmts)), self.operand(t.args[2], cb, len(cblk.stmts)))))
+        dcl = t.callee_decl() or ""
+        if dcl == "std::mem::replace" and argi == 0 and len(t.args) == 2:
+            return self.operand(t.args[1], cb, len(cblk.stmts))          # the local now holds the replacement
+        if dcl == "std::mem::take" and argi == 0:
+            return ("call", "std::default::Default::default", ())
+        if dcl in ("std::vec::Vec::append", "alloc::vec::Vec::append") and len(t.args) == 2 and not fn.local_ty(l).startswith("&"):
+            if argi == 0:
+                # a.append(&mut b): a afterwards holds its items followed by b's
+                return ("chain", self.local(l, b, i), self.operand(t.args[1], cb, len(cblk.stmts)))
+            return ("call", "std::vec::Vec::new", ())
         lty = fn.local_ty(l)
         if not t.callee_is_local() and not lty.startswith("&") and (lty.endswith("Hasher") or lty.endswith("Hasher>")) and "BuildHasher" not in lty.split("::")[-1]:
             # a hasher absorbing input (`hasher.write_usize(i)`, `obj.hash(&mut hasher)`): its state afterwards is a function of its
@@ -1459,6 +1469,9 @@ class TermBuilder:
         if name in TRANSPARENT and len(args) == 1 and (decl.startswith(TRANSPARENT_DECLS_PREFIX) or name in ("iter", "iter_mut", "clone", "deref", "deref_mut", "borrow", "borrow_mut", "into_iter", "cloned", "copied", "by_ref", "as_ref")):
             return args[0]
         if decl in ("std::rc::Rc::new", "std::boxed::Box::new", "std::convert::From::from", "std::convert::Into::into") and len(args) == 1:
+            return args[0]
+        # std::mem::take(&mut x) / std::mem::replace(&mut x, v) return the value x held (references are value-transparent)
+        if decl in ("std::mem::take", "std::mem::replace") and args:
             return args[0]
         # checked arithmetic
         if name in CHECKED and len(args) == 2:
